@@ -66,6 +66,7 @@ type Fake struct {
 	faultFn  func(r Req) Fault
 	onHeight func()
 	hsig     chan struct{} // signalled on every `heights` request
+	idle     int           // consecutive `heights` requests without any other request
 	injected int
 }
 
@@ -74,7 +75,7 @@ func NewFake(c *forge.Chain) *Fake {
 }
 
 // SetCap limits the tip the fake reports (0 removes the limit).
-func (f *Fake) SetCap(h uint32) { f.mu.Lock(); f.cap = h; f.mu.Unlock() }
+func (f *Fake) SetCap(h uint32) { f.mu.Lock(); f.cap = h; f.idle = 0; f.mu.Unlock() }
 
 // SetFault installs the fault decision function (nil removes it).
 func (f *Fake) SetFault(fn func(r Req) Fault) { f.mu.Lock(); f.faultFn = fn; f.mu.Unlock() }
@@ -100,6 +101,11 @@ func (f *Fake) Injected() int { f.mu.Lock(); defer f.mu.Unlock(); return f.injec
 
 // TotalRequests returns the number of requests served.
 func (f *Fake) TotalRequests() int { f.mu.Lock(); defer f.mu.Unlock(); return f.seq }
+
+// IdlePolls returns how many times in a row the daemon has asked for `heights` without asking for anything else
+// since (and since the cap was last raised): a daemon with work to do asks for the next directory block right
+// after the first such answer.
+func (f *Fake) IdlePolls() int { f.mu.Lock(); defer f.mu.Unlock(); return f.idle }
 
 // HeightsSignal is signalled (non-blocking) each time the daemon asks for `heights`,
 // i.e. each time it is between block attempts.
@@ -141,6 +147,11 @@ func (f *Fake) RoundTrip(r *http.Request) (*http.Response, error) {
 	if req.Method == "dblock-by-height" {
 		f.cur = rq.Height
 		f.dcount[rq.Height]++
+	}
+	if req.Method == "heights" {
+		f.idle++
+	} else {
+		f.idle = 0
 	}
 	rq.Cur = f.cur
 	key := req.Method + "/" + hex.EncodeToString(rq.Hash[:8]) + "/" + itoa(int(rq.Height)) + "/" + itoa(int(rq.Cur))
